@@ -1,5 +1,5 @@
 """Decision per property (DESIGN.md section 5): which rules decide which clauses."""
-from . import registry, rules_cw, rules_own, rules_link
+from . import registry, rules_cw, rules_own, rules_link, rules_ord
 from .registry import prop, register
 
 register("OWN-BALANCE", rules_own.rule_balance)
@@ -12,7 +12,8 @@ register("CAS-EPOCH-BLIND", rules_link.rule_cas_epoch_blind)
 COMPOSITION = "composition of the per-step protocol conditions into a guarantee over all interleavings (the algorithm's invariant: owners + token = strong); the rules check that each step preserves it, they are not an inductive proof over schedules"
 TRUST = ["user RcObject::pop_edges / Drop honour the RcObject safety contract",
          "only the live cfg! arm (x86-64) and non-unwinding paths are judged",
-         "memory orderings of RMWs are not judged (unobservable on x86-64)"]
+         "memory orderings are judged only against necessary floors (ORD-*: release on giving up a share / leaving a critical "
+         "section / publishing, acquire before destruction / consuming); sufficiency of the orderings is not decided"]
 
 prop("C01", "other",
      ["CW-SITES", "OWN-BALANCE", "OWN-PRIMITIVES", "CW-TOKEN", "CW-SPLIT-INC-PROTECTED", "CW-ZERO-DEFERS",
@@ -53,6 +54,7 @@ register("EBR-NO-FORGET", rules_ebr.rule_no_forget)
 register("EBR-DEFERRED-INLINE", rules_ebr.rule_deferred_inline)
 register("EBR-TLS", rules_ebr.rule_tls)
 register("EBR-LIVE-PRECOND", rules_ebr.rule_live_precond)
+register("EBR-FLUSH-SCHEDULES", rules_ebr.rule_flush_schedules)
 register("EBR-LIST", rules_ebr.rule_list)
 register("EBR-QUEUE", rules_ebr.rule_queue)
 register("EBR-QUEUE-DROP", rules_ebr.rule_queue_drop)
@@ -89,8 +91,9 @@ prop("C13", "other",
       "CW-DEFERRED-ONLY"],
      [SCHED], assumptions=TRUST)
 prop("C15", "other",
-     ["EBR-NO-FORGET", "EBR-FINALIZE-HANDOFF", "EBR-DEFERRED-INLINE", "EBR-QUEUE-DROP", "EBR-QUEUE"],
-     ["'eventually' (liveness)"], assumptions=TRUST)
+     ["EBR-NO-FORGET", "EBR-FINALIZE-HANDOFF", "EBR-DEFERRED-INLINE", "EBR-QUEUE-DROP", "EBR-QUEUE", "EBR-FLUSH-SCHEDULES"],
+     ["'eventually' (liveness) beyond its structural part: every flush / bag overflow schedules a collection and every "
+      "collection tries to advance (EBR-FLUSH-SCHEDULES); that finitely many rounds suffice is not decided"], assumptions=TRUST)
 prop("C16", "other",
      ["EBR-GUARD-COUNT", "EBR-REACTIVATE", "EBR-EPOCH-WRITERS", "EBR-COLLECT-OUTERMOST", "TY-SIG", "EBR-LIVE-PRECOND"],
      ["re-entrancy from destructors running during collection beyond EBR-COLLECT-OUTERMOST"],
@@ -140,6 +143,20 @@ register("WRAP-ATOMICS", rules_wrap.rule_wrap_atomics)
 register("CW-ALLOC-INIT", rules_wrap.rule_alloc_init)
 register("EBR-DEFAULT-COLLECTOR", rules_wrap.rule_default_collector)
 register("CW-DEFER-WRAPPER", rules_wrap.rule_defer_wrapper)
+register("ORD-COUNT", rules_ord.rule_ord_count)
+register("ORD-EPOCH", rules_ord.rule_ord_epoch)
+register("ORD-QUEUE", rules_ord.rule_ord_queue)
+register("ORD-LIST", rules_ord.rule_ord_list)
+register("ORD-FORWARD", rules_ord.rule_ord_forward)
+for _name, (_props, _d) in rules_ord.SECTIONS.items():
+    for _p in _props:
+        if _name not in registry.PROPS[_p]["rules"]:
+            registry.PROPS[_p]["rules"].append(_name)
+# dependencies between properties: what is promised "inside a still-active critical section" (C02 Snapshots, C03
+# WeakSnapshots) needs every grace-period rule of C13; "destructed once, freed once, nothing leaks" (C04) needs every
+# deferred function to run exactly once and eventually (the rules of C15)
+for _p, _src in (("C02", "C13"), ("C03", "C13"), ("C04", "C15")):
+    registry.PROPS[_p]["rules"] += [x for x in registry.PROPS[_src]["rules"] if x not in registry.PROPS[_p]["rules"]]
 for _p, _rules in (("C01", ["CW-ALLOC-INIT", "CW-DEFER-WRAPPER"]), ("C02", ["EBR-DEFAULT-COLLECTOR", "CW-DEFER-WRAPPER"]),
                    ("C03", ["CW-ALLOC-INIT", "CW-DEFER-WRAPPER"]), ("C04", ["CW-ALLOC-INIT"]), ("C10", ["CW-ALLOC-INIT"]),
                    ("C13", ["WRAP-ATOMICS", "EBR-DEFAULT-COLLECTOR", "CW-DEFER-WRAPPER"]),
